@@ -146,7 +146,7 @@ def replay_under_hashseeds(meta, traces, wd, seed, rec, out):
     hs = [str(1 + (seed * 2654435761 + 12345) % 4294967290), str(1 + (seed * 40503 + 977) % 4294967290)]
     if hs[0] == hs[1]:
         hs[1] = str(int(hs[1]) + 1)
-    procs = [subprocess.Popen([sys.executable, '-m', 'harness.replay_cli', f], cwd=ROOT, stdout=subprocess.PIPE, text=True,
+    procs = [subprocess.Popen([sys.executable, '-m', 'harness.replay_cli', f] + (['masked'] if ADDRESS_FINDING in ALIVE else []), cwd=ROOT, stdout=subprocess.PIPE, text=True,
                               env=dict(os.environ, PYTHONHASHSEED=h)) for h in hs]
     results = []
     for p, h in zip(procs, hs):
@@ -159,11 +159,16 @@ def replay_under_hashseeds(meta, traces, wd, seed, rec, out):
     rec['hashseeds'] = hs
     rec['output_digests'] = [r['digest'] for r in results]
     divs = results[0]['divs'] + results[1]['divs']
-    if results[0]['digest'] != results[1]['digest']:
+    rec['output_digests_masked'] = [r['digest_masked'] for r in results]
+    differ = results[0]['digest'] != results[1]['digest']
+    if differ and results[0]['digest_masked'] == results[1]['digest_masked'] and ADDRESS_FINDING in ALIVE:
+        rec['only_known_address_difference'] = True     # reported as KNOWN-FINDING (re-executed above), nothing else differs
+        differ = False
+    if differ:
         divs.append({'kind': 'diverged', 'phase': 'step', 'step': 0, 'fields': ['o'], 'call': None, 'a': 'call', 'x': '?',
                      'expected': {'o': 'digest ' + results[0]['digest']}, 'observed': {'o': 'digest ' + results[1]['digest']},
-                     'dev': [], 'behaviour': 0,
-                     'what': 'emitted bytes differ between PYTHONHASHSEED=%s and PYTHONHASHSEED=%s' % tuple(hs)})
+                     'dev': [], 'behaviour': next((i for i, (x, y) in enumerate(zip(results[0]['per'], results[1]['per'])) if x != y), 0),
+                     'what': 'emitted bytes, exception texts or event reprs differ between PYTHONHASHSEED=%s and PYTHONHASHSEED=%s' % tuple(hs)})
     return divs, results[0]['n'] + results[1]['n'], results[0]['steps'] + results[1]['steps']
 
 
@@ -222,6 +227,15 @@ def run_tv(pid, tier, seed, out):
             b = json.dumps([[t['id'], t['steps']] for t in other], sort_keys=True)
             out['tv']['hashseed_runs'] = [os.environ.get('PYTHONHASHSEED', 'random'), str(hs)]
             out['tv']['hashseed_equal'] = (a == b)
+            if a != b and ADDRESS_FINDING in ALIVE:
+                for ts in (traces, other):
+                    for t in ts:
+                        for s_ in t['steps']:
+                            if s_.get('p', {}).get('x'):
+                                s_['p']['x']['exc'] = driver_mask(s_['p']['x']['exc'])
+                a = json.dumps([[t['id'], t['steps']] for t in traces], sort_keys=True)
+                b = json.dumps([[t['id'], t['steps']] for t in other], sort_keys=True)
+                out['tv']['hashseed_equal_but_for_known_address'] = (a == b)
             if a != b:
                 k = next((i for i, (x, y) in enumerate(zip(traces, other)) if x['steps'] != y['steps']), 0)
                 j = next((i for i, (x, y) in enumerate(zip(traces[k]['steps'], other[k]['steps'])) if x != y), 0)
@@ -400,6 +414,15 @@ def run_apalache(pid, out):
     return fails
 
 
+ADDRESS_FINDING = 'decode_error_text_embeds_address'
+ALIVE = set()
+
+
+def driver_mask(text):
+    from harness import driver
+    return driver.mask_addresses(text)
+
+
 def strip_obs(s):
     return {k: v for k, v in s.items() if k != 'p'}
 
@@ -454,6 +477,8 @@ def do_check(pid, tier, seed):
                 alive.add(kf['deviation'])
         except Exception:
             pass
+    ALIVE.clear()
+    ALIVE.update(alive)
 
     # (2)+(3) scenario models: spec -> code
     all_divs = []
